@@ -190,6 +190,7 @@ type TColl struct {
 	Partitions map[string]int64 // what GetCollectionInfo reports at StartReadCollection time
 	Late       map[string]int64 // additionally reported by GetPartitionInfo (ids learned lazily)
 	Missing    bool
+	Fail       bool // the downstream refuses to describe the collection (an error that is not "not found")
 }
 
 type Target struct {
@@ -213,11 +214,23 @@ func (t *Target) Set(db, name string, c *TColl) {
 	t.Colls[key(db, name)] = c
 }
 
+// SetFail makes the downstream refuse (or answer again) the description of a collection.
+func (t *Target) SetFail(db, name string, on bool) {
+	t.mu.Lock()
+	defer t.mu.Unlock()
+	if c, ok := t.Colls[key(db, name)]; ok {
+		c.Fail = on
+	}
+}
+
 func (t *Target) GetCollectionInfo(ctx context.Context, collectionName, databaseName string) (*model.CollectionInfo, error) {
 	t.mu.Lock()
 	defer t.mu.Unlock()
 	t.Calls = append(t.Calls, "coll:"+key(databaseName, collectionName))
 	c, ok := t.Colls[key(databaseName, collectionName)]
+	if ok && c.Fail {
+		return nil, fmt.Errorf("rpc error: code = PermissionDenied desc = describe collection %s refused", collectionName)
+	}
 	if !ok || c.Missing {
 		return nil, fmt.Errorf("collection not found[database=%s][collection=%s]", databaseName, collectionName)
 	}
